@@ -42,6 +42,10 @@ func (ft *FT) methodCall(c *ast.CallExpr, f *ast.SelectorExpr) []Val {
 			if f.Sel.Name == "Put" { // only objects local to this function may be Put (pool.go)
 				for _, a := range args {
 					ok = ok && !lostRef(a) && len(ft.nonLocal(a.Pts)) == 0
+					if ft.putRoots == nil {
+						ft.putRoots = RootSet{}
+					}
+					ft.putRoots.addAll(a.Pts) // ... and they may not escape (checked at the end)
 				}
 			}
 			if !ok {
